@@ -238,6 +238,31 @@ def _run_corpus(pid, mod, subs, t0):
                 harness=harness, wall=time.time() - t0)
 
 
+_PREP = {}
+
+
+def prepared():
+    """result of the property module's optional PREPARE(tier, seed) hook (computed once per run in the
+    main process, shared with the workers through a file in the run's temporary directory)"""
+    if "v" not in _PREP:
+        import pickle
+        with open(os.path.join(os.environ["VERIF_RUN_TMP"], "prepare.pkl"), "rb") as f:
+            _PREP["v"] = pickle.load(f)
+    return _PREP["v"]
+
+
+def _run_prepare(mod, tier, seed):
+    import pickle
+    import tempfile
+    tmpdir = tempfile.mkdtemp(prefix="verif_run_")
+    os.environ["VERIF_RUN_TMP"] = tmpdir
+    if hasattr(mod, "PREPARE"):
+        data = mod.PREPARE(tier, seed)
+        with open(os.path.join(tmpdir, "prepare.pkl"), "wb") as f:
+            pickle.dump(data, f)
+    return tmpdir
+
+
 def plan_tasks(pid, mod, tier, seed, only=None):
     tasks = []
     if glob.glob(os.path.join(ROOT, "corpus", pid, "*.json")) and not only:
@@ -262,11 +287,16 @@ def run_property(pid, tier="quick", seed=1, only=None, out=sys.stdout):
     t0 = time.time()
     pid = pid.upper()
     mod = load_prop(pid)
-    tasks = plan_tasks(pid, mod, tier, seed, only)
-    ctx = mp.get_context("spawn")
-    nproc = min(NPROC, len(tasks))
-    with ctx.Pool(nproc, maxtasksperchild=None) as pool:
-        results = list(pool.imap_unordered(run_task, tasks, chunksize=1))
+    import shutil
+    tmpdir = _run_prepare(mod, tier, seed)
+    try:
+        tasks = plan_tasks(pid, mod, tier, seed, only)
+        ctx = mp.get_context("spawn")
+        nproc = min(NPROC, len(tasks))
+        with ctx.Pool(nproc, maxtasksperchild=None) as pool:
+            results = list(pool.imap_unordered(run_task, tasks, chunksize=1))
+    finally:
+        shutil.rmtree(tmpdir, ignore_errors=True)
     results.sort(key=lambda r: (r["sub"], r["shard"]))
 
     harness_errors = [r for r in results if not r["ok"]]
@@ -396,9 +426,15 @@ def replay(pid, path, out=sys.stdout):
     mod = load_prop(pid)
     subs = {s.name: s for s in mod.SUBS}
     sub = subs[ent["sub"]]
-    _setup_worker(sub.jax)
-    st = _Stats(sub, 1e9)
-    status, bucket, detail, info = st.outcome(ent["recipe"])
+    import shutil
+    tmpdir = _run_prepare(mod, ent.get("tier", "quick"), ent.get("seed", 1))
+    try:
+        _setup_worker(sub.jax)
+        st = _Stats(sub, 1e9)
+        status, bucket, detail, info = st.outcome(ent["recipe"])
+    finally:
+        shutil.rmtree(tmpdir, ignore_errors=True)
+        sys.stdout = sys.__stdout__
     if status == "fail":
         print(f"  replay [{ent['sub']}] {bucket}: {detail[:3000]}", file=out)
         print(f"VIOLATION property={pid.upper()} replay={os.path.abspath(path)}", file=out)
